@@ -119,10 +119,12 @@ class LocalGenSim(LocalSim):
     async def _flagged(self, name, arg):
         if name == "set_event":
             self.ctx.in_set_event = arg
+        self.ctx.in_async_call = self.sid  # (a request mosaik passes on to another simulator meanwhile is made on this one's behalf)
         try:
             return await getattr(self.mosaik, name)(arg)
         finally:
             self.ctx.in_set_event = None
+            self.ctx.in_async_call = None
 
     def step(self, time, inputs, max_advance):
         from mosaik.exceptions import ScenarioError, SimulationError
